@@ -55,6 +55,9 @@ def confirm(name, suite):
     if var in ("D", "E", "F"):
         # second round: /tmp/seed2/<ID>/out/{A,B,C} are kept as variants D, E, F
         src = os.path.join("/tmp/seed2", sid, "out", {"D": "A", "E": "B", "F": "C"}[var])
+    if var in ("G", "H"):
+        # third round: /tmp/seed3/<ID>/out/{A,B} are kept as variants G, H
+        src = os.path.join("/tmp/seed3", sid, "out", {"G": "A", "H": "B"}[var])
     sdir = os.path.join(VERIF, "seeded", sid, var)
     os.makedirs(sdir, exist_ok=True)
     adapted = False
